@@ -4,6 +4,7 @@ writer" with explicit control of types, encodings, run plans, page boundaries, c
 flat_plan(...)   -> plan with 1-4 flat columns over the supported feature set (C03, C17)
 nested_plan(...) -> LIST / MAP columns (C15)
 Feature switches keep the campaign away from recorded findings (counted by the caller)."""
+import copy
 import json
 import struct
 
@@ -115,6 +116,47 @@ def value(kind, narrow=False):
     raise ValueError(kind)
 
 
+def pad_value(kind, i):
+    """i-th filler entry of a padded dictionary: a valid plan value of the kind, a pure function of (kind, i)."""
+    if kind in ("i8", "i16", "i32", "i64", "u8", "u16", "u32", "u64"):
+        bits = int(kind[1:])
+        lo, hi = (-(1 << (bits - 1)), (1 << (bits - 1)) - 1) if kind[0] == "i" else (0, (1 << bits) - 1)
+        return lo + (i * 2654435761 + 12345) % (hi - lo + 1)
+    if kind in ("date", "dec9", "dec18", "dec16", "dec30b"):
+        return i - 50
+    if kind in ("time_ms", "time_us"):
+        return i * 1000 + 1
+    if kind in ("ts_ms", "ts_us", "ts_ns"):
+        return i * 1000003 - 7
+    if kind == "i96":
+        return i * 10 ** 9 + 1
+    if kind in ("f32", "f64"):
+        return i + 0.25
+    if kind == "bytes":
+        return {"hex": "%04x" % i + "00" * (i % 3)}
+    if kind == "text":
+        return "pad%d" % i
+    if kind == "json":
+        return json.dumps({"pad": i})
+    if kind == "fixed5":
+        return {"hex": "%08x01" % i}
+    raise ValueError(kind)
+
+
+def expand_plan(plan):
+    """Plan as refpq.writer takes it: `dict_pad` {n, kind} of a chunk becomes an explicit dictionary list of n filler
+    entries (the values the pages need are appended behind them by the encoder). Returns a copy when anything changed."""
+    if not any("dict_pad" in cp for rg in plan.get("row_groups", []) for cp in (rg.get("chunks") or {}).values()):
+        return plan
+    plan = copy.deepcopy(plan)
+    for rg in plan["row_groups"]:
+        for cp in (rg.get("chunks") or {}).values():
+            pad = cp.pop("dict_pad", None)
+            if pad and not isinstance(cp.get("dictionary"), list):
+                cp["dictionary"] = [pad_value(pad["kind"], i) for i in range(pad["n"])]
+    return plan
+
+
 @st.composite
 def run_plan(draw, n):
     """Explicit run plan over n entries: mixture of RLE and bit-packed runs around group boundaries."""
@@ -203,6 +245,13 @@ def chunk_plan(draw, col, rows, allow):
                                          {"fields": ["min_value", "max_value"]}, {"fields": ["null_count"]}]))}
     if base_enc in ("PLAIN_DICTIONARY", "RLE_DICTIONARY") and draw(st.integers(0, 3)) == 0:
         cp["dictionary"] = "auto"
+    elif base_enc in ("PLAIN_DICTIONARY", "RLE_DICTIONARY") and allow.get("dict_pad", True) and draw(st.integers(0, 2)) == 0:
+        # a dictionary whose first entries no row refers to (a foreign writer may share one dictionary between
+        # chunks, or keep entries of deleted rows): the indices that do occur are large although the rows are few
+        sizes = [1, 5, 100, 127, 128, 129, 200, 250, 255, 256, 257, 300]
+        if allow.get("big_dict"):
+            sizes += [1000, 4095, 4096, 32767, 32768, 40000, 65535, 65536, 70000]
+        cp["dict_pad"] = {"n": draw(st.sampled_from(sizes)), "kind": col["kind"]}
     if not allow.get("stats_without_null_count", True) and isinstance(cp["stats"], dict) and "null_count" not in cp["stats"]["fields"]:
         cp["stats"]["fields"] = cp["stats"]["fields"] + ["null_count"]
     return cp
@@ -213,7 +262,9 @@ SUPPORTED_KEYS = [t[0] for t in FLAT_TYPES]
 
 @st.composite
 def flat_plan(draw, thorough=False, allow=None, type_keys=None, pandas_meta=False):
-    allow = allow or {}
+    allow = dict(allow or {})
+    if thorough:
+        allow.setdefault("big_dict", True)
     type_keys = type_keys or SUPPORTED_KEYS
     ncols = draw(st.integers(1, 4))
     n_groups = draw(st.sampled_from([1, 1, 2, 3]))
